@@ -1,8 +1,9 @@
 (** Extraction of the concurrent step machines and the schedule replayer. *)
 From Coq Require Extraction.
 From Coq Require Import ExtrOcamlBasic.
-From Garr Require Import Conc.Conc Queue.JdkModel Queue.MutexModel.
+From Garr Require Import Conc.Conc Queue.JdkModel Queue.MutexModel Adder.StripedModel Adder.SimpleModel.
 Extraction Blacklist List String Int Bool Nat.
 Extraction "conc_model.ml"
   replay replay_step step_thread init
-  jdk qinit iter0 mutexq minit.
+  jdk qinit qiter0 mutexq minit
+  jdk_adder jdk_f64_adder ainit rc_adder rinit atomic_adder atomic_f64_adder mutex_adder xinit.
